@@ -250,9 +250,9 @@ func drawOp07(t *rapid.T, faults bool) *op07 {
 		case "sen.Writer":
 			o.Fn = []string{"SEN", "Write"}[sim.Intn(t, 2, "fn")]
 		case "pkg.oj":
-			o.Fn = []string{"JSON", "JSON(opts)", "Marshal", "Marshal(opts)", "Write", "Write(opts)"}[sim.Intn(t, 6, "fn")]
+			o.Fn = []string{"JSON", "JSON(opts)", "Marshal", "Marshal(opts)", "Write", "Write(opts)", "JSON(int)", "Marshal(int)", "Write(int)"}[sim.Intn(t, 9, "fn")]
 		default:
-			o.Fn = []string{"String", "String(opts)", "Write", "Write(opts)"}[sim.Intn(t, 4, "fn")]
+			o.Fn = []string{"String", "String(opts)", "Write", "Write(opts)", "String(int)", "Write(int)", "Bytes"}[sim.Intn(t, 7, "fn")]
 		}
 		if faults && sim.Intn(t, 3, "wfault") == 2 {
 			o.Faulty = true
@@ -652,6 +652,18 @@ func (o *op07) exec(w *world07) (r *res07) {
 			sw := sim.NewSimWriter(o.FailCall)
 			err := oj.Write(sw, o.Value)
 			finishText(nil, err, sw)
+		case "JSON(int)":
+			finishText([]byte(oj.JSON(o.Value, o.Limit%5)), nil, nil)
+		case "Marshal(int)":
+			out, err := oj.Marshal(o.Value, o.Limit%5)
+			finishText(out, err, nil)
+			if err == nil {
+				r.Retained = []any{out}
+			}
+		case "Write(int)":
+			sw := sim.NewSimWriter(o.FailCall)
+			err := oj.Write(sw, o.Value, o.Limit%5)
+			finishText(nil, err, sw)
 		default:
 			opt.WriteLimit = o.Limit
 			sw := sim.NewSimWriter(o.FailCall)
@@ -664,6 +676,16 @@ func (o *op07) exec(w *world07) (r *res07) {
 			finishText([]byte(sen.String(o.Value)), nil, nil)
 		case "String(opts)":
 			finishText([]byte(sen.String(o.Value, &opt)), nil, nil)
+		case "String(int)":
+			finishText([]byte(sen.String(o.Value, o.Limit%5)), nil, nil)
+		case "Bytes":
+			b := sen.Bytes(o.Value)
+			finishText(append([]byte(nil), b...), nil, nil)
+			r.Retained = []any{b}
+		case "Write(int)":
+			sw := sim.NewSimWriter(o.FailCall)
+			err := sen.Write(sw, o.Value, o.Limit%5)
+			finishText(nil, err, sw)
 		case "Write":
 			sw := sim.NewSimWriter(o.FailCall)
 			err := sen.Write(sw, o.Value)
@@ -688,6 +710,7 @@ func (o *op07) orderIndependent() bool {
 	if strings.HasSuffix(o.Fn, "(opts)") || o.Subj == "oj.Writer" || o.Subj == "sen.Writer" {
 		return true // Sort is set in every drawn option set
 	}
+	// (calls with an int indent or without arguments use unsorted default options)
 	return maxMembersAny(o.Value) <= 1
 }
 
